@@ -72,9 +72,16 @@ type Case struct {
 	// Merge the beacon-node duties of all slots go through ONE MergeDuties call (the
 	// controller merges a whole epoch at once) and Attest is run for every resulting
 	// per-slot duty in slot order.
-	Extra      []ExtraSlot `json:"extra,omitempty"`
-	SourceBack uint64      `json:"source_back"` // source epoch = target epoch - min(SourceBack, target)
-	RootSeed   uint64      `json:"root_seed"`
+	Extra []ExtraSlot `json:"extra,omitempty"`
+	// OtherAccounts: validators the account manager also holds active accounts for
+	// although they have no duty in any slot of this case.
+	OtherAccounts []uint64 `json:"other_accounts,omitempty"`
+	// AccountsFault, in force during the Attest of the judged slot: "" | "by-index"
+	// (ValidatingAccountsForEpochByIndex fails) | "for-epoch"
+	// (ValidatingAccountsForEpoch fails) | "both".
+	AccountsFault string `json:"accounts_fault,omitempty"`
+	SourceBack    uint64 `json:"source_back"` // source epoch = target epoch - min(SourceBack, target)
+	RootSeed      uint64 `json:"root_seed"`
 }
 
 // ExtraSlot is another slot of the epoch with its own committees and validators
@@ -127,11 +134,18 @@ func accountValidator(a e2wtypes.Account) (uint64, bool) {
 	return binary.LittleEndian.Uint64(b[1:9]), true
 }
 
+// accountsProvider is the account manager: have is the universe of validators
+// with an active account (the duty's validators that are not scripted as
+// "noaccount" plus OtherAccounts); the two lookups fail independently.
 type accountsProvider struct {
-	have map[uint64]bool
+	have                      map[uint64]bool
+	failByIndex, failForEpoch bool
 }
 
 func (p *accountsProvider) ValidatingAccountsForEpoch(_ context.Context, _ phase0.Epoch) (map[phase0.ValidatorIndex]e2wtypes.Account, error) {
+	if p.failForEpoch {
+		return nil, fmt.Errorf("scripted failure of ValidatingAccountsForEpoch")
+	}
 	res := map[phase0.ValidatorIndex]e2wtypes.Account{}
 	for v := range p.have {
 		res[phase0.ValidatorIndex(v)] = newAccount(v)
@@ -140,6 +154,9 @@ func (p *accountsProvider) ValidatingAccountsForEpoch(_ context.Context, _ phase
 }
 
 func (p *accountsProvider) ValidatingAccountsForEpochByIndex(_ context.Context, _ phase0.Epoch, indices []phase0.ValidatorIndex) (map[phase0.ValidatorIndex]e2wtypes.Account, error) {
+	if p.failByIndex {
+		return nil, fmt.Errorf("scripted failure of ValidatingAccountsForEpochByIndex")
+	}
 	res := map[phase0.ValidatorIndex]e2wtypes.Account{}
 	for _, i := range indices {
 		if p.have[uint64(i)] {
@@ -459,6 +476,16 @@ func genCase(t *rapid.T) Case {
 			c.Extra = append(c.Extra, x)
 		}
 	}
+	// the account manager normally holds more accounts than one slot's duty
+	for k, nO := 0, rapid.OneOf(rapid.Just(0), rapid.IntRange(1, 6), rapid.IntRange(1, 6)).Draw(t, "nOtherAccounts"); k < nO; k++ {
+		v := rapid.Uint64Range(0, 99).Draw(t, "otherAccount")
+		for usedV[v] {
+			v = (v + 1) % 100
+		}
+		usedV[v] = true
+		c.OtherAccounts = append(c.OtherAccounts, v)
+	}
+	c.AccountsFault = rapid.SampledFrom([]string{"", "", "", "", "", "", "by-index", "by-index", "for-epoch", "both"}).Draw(t, "accountsFault")
 	return c
 }
 
@@ -579,13 +606,30 @@ type callJudgement struct {
 // expect: validator -> must have exactly one attestation; validators of the
 // duty not in expect must have none.  afterAttestedSkip: validators that are
 // preceded in duty order by a validator skipped as already attested.
+// during: the signing requests made during the call; askable: the validators
+// whose account may be put before the signer (in the duty, not already attested,
+// account known); optional: the accounts lookup was made to fail, so nobody has
+// to attest - but whoever does is judged all the same.
 func judgeCall(what string, slot uint64, tuples []tuple, expect map[uint64]bool, afterAttestedSkip map[uint64]bool,
 	data *phase0.AttestationData, submitted []*phase0.Attestation, reqs []signReq,
+	during []signReq, askable map[uint64]bool, optional bool,
 ) []callJudgement {
 	var res []callJudgement
 	byV := map[uint64]tuple{}
 	for _, tp := range tuples {
 		byV[tp.v] = tp
+	}
+	for _, q := range during {
+		for k, v := range q.accounts {
+			switch {
+			case !q.known[k]:
+				res = append(res, callJudgement{"signature-requested-for-unknown-account", fmt.Sprintf("%s: the signer was handed an account the account manager never issued", what)})
+			case byV[v] == (tuple{}) && !inTuples(tuples, v):
+				res = append(res, callJudgement{"signature-requested-for-foreign-validator", fmt.Sprintf("%s: the signer was asked to sign (committee %d) with the account of validator %d, which has no duty in slot %d", what, q.committees[k], v, slot)})
+			case !askable[v]:
+				res = append(res, callJudgement{"signature-requested-for-skipped-validator", fmt.Sprintf("%s: the signer was asked to sign with the account of validator %d, which already attested this epoch or has no account", what, v)})
+			}
+		}
 	}
 	seen := map[uint64]bool{}
 	for i, a := range submitted {
@@ -657,11 +701,20 @@ func judgeCall(what string, slot uint64, tuples []tuple, expect map[uint64]bool,
 			missing = append(missing, v)
 		}
 	}
-	if len(missing) > 0 {
+	if len(missing) > 0 && !optional {
 		sort.Slice(missing, func(i, j int) bool { return missing[i] < missing[j] })
 		res = append(res, callJudgement{"missing-attestation", fmt.Sprintf("%s: validators %v are not skipped and got a signature but have no attestation in the submission", what, missing)})
 	}
 	return res
+}
+
+func inTuples(tuples []tuple, v uint64) bool {
+	for _, tp := range tuples {
+		if tp.v == v {
+			return true
+		}
+	}
+	return false
 }
 
 type stats struct {
@@ -718,6 +771,10 @@ func runAndJudge(c *Case) (harness string, js []callJudgement, st stats) {
 	clock := fakes.NewVClock(time.Unix(1600000000, 0), 12*time.Second, c.SlotsPerEpoch)
 	clock.SetSlot(c.PriorSlot, 4*time.Second)
 	sgn := &signer{zero: map[uint64]bool{}}
+	for _, v := range c.OtherAccounts {
+		have[v] = true
+	}
+	acc := &accountsProvider{have: have}
 	sub := &submitter{}
 	dp := &dataProvider{bySlot: map[uint64]*phase0.AttestationData{}}
 	svc, err := standardattester.New(ctx,
@@ -728,7 +785,7 @@ func runAndJudge(c *Case) (harness string, js []callJudgement, st stats) {
 		standardattester.WithSpecProvider(specProvider{c.SlotsPerEpoch}),
 		standardattester.WithAttestationDataProvider(dp),
 		standardattester.WithAttestationsSubmitter(sub),
-		standardattester.WithValidatingAccountsProvider(&accountsProvider{have: have}),
+		standardattester.WithValidatingAccountsProvider(acc),
 		standardattester.WithBeaconAttestationsSigner(sgn),
 	)
 	if err != nil {
@@ -742,7 +799,9 @@ func runAndJudge(c *Case) (harness string, js []callJudgement, st stats) {
 			return "cannot build preceding duty: " + err.Error(), nil, st
 		}
 		dp.bySlot = map[uint64]*phase0.AttestationData{c.PriorSlot: priorData}
+		reqFrom := len(sgn.reqs)
 		_, _ = svc.Attest(ctx, duty)
+		priorReqs := sgn.reqs[reqFrom:]
 		expect := map[uint64]bool{}
 		for _, tp := range priorTuples {
 			expect[tp.v] = true
@@ -751,7 +810,7 @@ func runAndJudge(c *Case) (harness string, js []callJudgement, st stats) {
 		for _, call := range sub.calls {
 			submitted = append(submitted, call...)
 		}
-		js = append(js, judgeCall("preceding Attest", c.PriorSlot, priorTuples, expect, nil, priorData, submitted, sgn.reqs)...)
+		js = append(js, judgeCall("preceding Attest", c.PriorSlot, priorTuples, expect, nil, priorData, submitted, sgn.reqs, priorReqs, expect, false)...)
 	}
 
 	// Judged calls: the duty of the judged slot and the duties of the other slots of the
@@ -791,6 +850,7 @@ func runAndJudge(c *Case) (harness string, js []callJudgement, st stats) {
 	sgn.zero = zero
 	sort.Slice(order, func(i, j int) bool { return order[i] < order[j] })
 	subRange := map[uint64][2]int{}
+	reqRange := map[uint64][2]int{}
 	dataOf := map[uint64]*phase0.AttestationData{c.Slot: mainData}
 	for _, slot := range order {
 		if slot != c.Slot {
@@ -798,9 +858,15 @@ func runAndJudge(c *Case) (harness string, js []callJudgement, st stats) {
 		}
 		clock.SetSlot(slot, 4*time.Second)
 		dp.bySlot = map[uint64]*phase0.AttestationData{slot: dataOf[slot]}
-		from := len(sub.calls)
+		from, reqFrom := len(sub.calls), len(sgn.reqs)
+		if slot == c.Slot {
+			acc.failByIndex = c.AccountsFault == "by-index" || c.AccountsFault == "both"
+			acc.failForEpoch = c.AccountsFault == "for-epoch" || c.AccountsFault == "both"
+		}
 		_, _ = svc.Attest(ctx, duties[slot]) // the error (e.g. nobody left to attest) is not part of this property
+		acc.failByIndex, acc.failForEpoch = false, false
 		subRange[slot] = [2]int{from, len(sub.calls)}
+		reqRange[slot] = [2]int{reqFrom, len(sgn.reqs)}
 	}
 	// recurring committee index with another length in the same MergeDuties call
 	{
@@ -877,17 +943,28 @@ func runAndJudge(c *Case) (harness string, js []callJudgement, st stats) {
 		for _, call := range sub.calls[subRange[slot][0]:subRange[slot][1]] {
 			submitted = append(submitted, call...)
 		}
+		during := sgn.reqs[reqRange[slot][0]:reqRange[slot][1]]
 		if slot == c.Slot {
-			js = append(js, judgeCall("Attest", c.Slot, mainTuples, expect, afterAttestedSkip, mainData, submitted, sgn.reqs)...)
+			askable := map[uint64]bool{}
+			for _, v := range c.Vals {
+				if v.Skip == "" || v.Skip == "zerosig" {
+					askable[v.V] = true
+				}
+			}
+			optional := c.AccountsFault == "by-index" || c.AccountsFault == "both"
+			js = append(js, judgeCall("Attest", c.Slot, mainTuples, expect, afterAttestedSkip, mainData, submitted, sgn.reqs, during, askable, optional)...)
 			continue
 		}
-		xExpect := map[uint64]bool{}
+		xExpect, xAskable := map[uint64]bool{}, map[uint64]bool{}
 		for _, tp := range bySlot[slot] {
 			if extraSkip[tp.v] == "" {
 				xExpect[tp.v] = true
 			}
+			if extraSkip[tp.v] != "noaccount" {
+				xAskable[tp.v] = true
+			}
 		}
-		js = append(js, judgeCall(fmt.Sprintf("Attest for slot %d of the same epoch", slot), slot, bySlot[slot], xExpect, nil, dataOf[slot], submitted, sgn.reqs)...)
+		js = append(js, judgeCall(fmt.Sprintf("Attest for slot %d of the same epoch", slot), slot, bySlot[slot], xExpect, nil, dataOf[slot], submitted, sgn.reqs, during, xAskable, false)...)
 	}
 	return "", js, st
 }
@@ -915,6 +992,12 @@ func check(t ev.TB, c *Case) {
 	}
 	if st.multi {
 		labels = append(labels, "several-committees")
+	}
+	if c.AccountsFault != "" {
+		labels = append(labels, "accounts-fault-"+c.AccountsFault)
+		if len(c.OtherAccounts) > 0 {
+			labels = append(labels, "accounts-fault-with-accounts-beyond-the-duty")
+		}
 	}
 	if st.extraSlots > 0 {
 		labels = append(labels, "several-slots-of-the-epoch")
